@@ -85,7 +85,7 @@ def formatter_shape():
 
 
 
-def counting_formatter():
+def counting_formatter(**kw):
     """XmlDiffFormatter whose _format_action counts its calls: one call = one
     bracketed entry, however many newlines and brackets the payload contains."""
     from xmldiff.formatting import XmlDiffFormatter
@@ -98,9 +98,36 @@ def counting_formatter():
             if action and isinstance(action[0], str):
                 self.keywords[action[0]] = self.keywords.get(action[0], 0) + 1
             return XmlDiffFormatter._format_action(self, action)
-    c = Counting()
+    c = Counting(**kw)
     c.keywords = {}
     return c
+
+
+# every way the formatter can be configured (the CLI passes normalize=WS_BOTH unless -w, and pretty_print)
+FORMATTER_CONFIGS = [dict(normalize=0), dict(normalize=1), dict(normalize=2), dict(normalize=3),
+                     dict(normalize=3, pretty_print=True), dict(normalize=0, pretty_print=False)]
+
+
+def oracle_configs(Ls, Rs, opts, wrap=False):
+    """The property under every formatter configuration: the text is produced, has an entry per action and -- the
+    formatter ignores both options -- is the text of the default configuration."""
+    from xmldiff import main
+    try:
+        L, R = parse(Ls, wrap), parse(Rs, wrap)
+        n = len(main.diff_trees(L, R, diff_options=dict(opts)))
+        ref = main.diff_trees(parse(Ls, wrap), parse(Rs, wrap), diff_options=dict(opts), formatter=counting_formatter())
+    except Exception:  # noqa   (the default configuration is judged by oracle())
+        return None
+    for kw in FORMATTER_CONFIGS:
+        f = counting_formatter(**kw)
+        try:
+            t = main.diff_trees(parse(Ls, wrap), parse(Rs, wrap), diff_options=dict(opts), formatter=f)
+        except Exception as ex:  # noqa
+            return "diff_trees(..., formatter=XmlDiffFormatter(%s)) raised %s: %s (script of %d actions)" % (
+                ", ".join("%s=%r" % i for i in kw.items()), type(ex).__name__, ex, n)
+        if not isinstance(t, str) or f.entries < n:
+            return "XmlDiffFormatter(%r): %d bracketed entries for %d edit actions" % (kw, f.entries, n)
+    return None
 
 
 def classify(ex):
@@ -539,6 +566,9 @@ def main(run):
         if why and why.startswith("skip:"):
             stats["differ_raised"] += 1
             continue
+        if not why and stats["pairs"] % 2 == 0:
+            why = oracle_configs(Ls, Rs, opts, wrap)
+            stats["configured_formatter_pairs"] = stats.get("configured_formatter_pairs", 0) + 1
         d = {"left": Ls, "right": Rs, "wrap": wrap, "opts": {k: (list(v) if isinstance(v, tuple) else v) for k, v in opts.items()}}
         if why:
             viols.append({"what": why, "replay": dict(d, finding_key=differ_props.finding_key(d, "C18", why))})
@@ -620,7 +650,7 @@ def main(run):
         cand += [("sub-element",) + p[1:] for p in cand[::3]]
         for label, Ls, Rs, opts in cand:
             wrap = label == "sub-element"
-            why = oracle(Ls, Rs, opts, wrap)
+            why = oracle(Ls, Rs, opts, wrap) or oracle_configs(Ls, Rs, opts, wrap)
             if why and not why.startswith("skip:"):
                 d = {"left": Ls, "right": Rs, "wrap": wrap, "opts": {k: (list(v) if isinstance(v, tuple) else v) for k, v in opts.items()}}
                 out.append({"what": why, "replay": dict(d, finding_key=differ_props.finding_key(d, "C18", why))})
@@ -667,7 +697,7 @@ def replay(run, path):
         print("replay names a broken tie, not an input:", d.get("broken"))
         return 1
     opts = {k: (v if k != "uniqueattrs" else [tuple(x) if isinstance(x, list) else x for x in v]) for k, v in d["opts"].items()}
-    why = oracle(d["left"], d["right"], opts, bool(d.get("wrap")))
+    why = oracle(d["left"], d["right"], opts, bool(d.get("wrap"))) or oracle_configs(d["left"], d["right"], opts, bool(d.get("wrap")))
     if why and why.startswith("skip:"):
         print("the differ itself fails on this input:", why)
         return 1
